@@ -63,3 +63,15 @@ Example C16_nonvacuous :
   exists shs, shares_at keccak_bytes {| cA := 2; cM := [1; 2; 3]%N; cR := [5]%N; cT := None |} [mkfp 7; mkfp 9] = Ok (Some shs)
               /\ length shs = 2%nat.
 Proof. eexists. split; [vm_compute; reflexivity|reflexivity]. Qed.
+
+(* mechanism of the known finding C16/short-sharing (same root cause as C05/short-sharing): the interpolated key
+   enters the outcome of recovery only through what it decrypts C and D to; points taken from a sharing under another
+   transcript give another key, and the collection is accepted exactly when that key decrypts alike - always when
+   message and coins are empty *)
+Theorem C16_key_bound_through_plaintext : forall (F : list N -> list N) (s s' : ashare) (rest rest' : list ashare) (keyb keyb' : bytes),
+  aA s = aA s' -> aC s = aC s' -> aD s = aD s' -> aJ s = aJ s' ->
+  Shamir.recover (aA s) (map aS (s :: rest)) = Ok keyb -> Shamir.recover (aA s') (map aS (s' :: rest')) = Ok keyb' ->
+  (Params.adss_key_take <= length keyb)%nat -> (Params.adss_key_take <= length keyb')%nat ->
+  adec F (firstn Params.adss_key_take keyb) (aC s) (aD s) = adec F (firstn Params.adss_key_take keyb') (aC s) (aD s) ->
+  arecover F (s :: rest) = arecover F (s' :: rest').
+Proof. exact arecover_key_via_plaintext. Qed.
